@@ -22,6 +22,10 @@ CHECKS = {
          "Finite-state proof per size and rule on the index-canonical quotient model (closed under every next key, hence all histories), transferred to the code by walking the same state graph on real LookupEncoder/LookupDecoder objects: "
          "state and transition counts equal, transition sets equal for small sizes, every real transition judged by the table contract; long random histories for sizes 8..4096.",
          "TLC exhaustive model checking of spec/PyLookup.tla + state-graph comparison on real objects"),
+ "C18": ("model_checking", "6 C18",
+         "PyWriter (with the per-row claim/refusal logic of TermEncoder) is simulated with the Fits guard off over universes whose statements need more prefix/datatype/name entries than the table holds; "
+         "each behaviour is replayed into a real Stream: the refusal must come exactly where the model refuses, and whatever was written is judged by TLC against the accepted statements.",
+         "TLC simulation of PyWriter (CheckFits=FALSE) replayed into real Streams + TLC trace judging"),
  "C19": ("model_checking", "6 C19",
          "Audit clauses (redundant entry, missed elision, missed zero form, missed regrouping) are part of the Tier-1 reader and are evaluated by TLC on every row of every real stream; the model composition checks the same clauses exhaustively on the slices.",
          "TLC trace validation with audit counters (spec/JellyReader.tla) + model checking of the Tight:* clauses in PyWriter"),
@@ -49,6 +53,7 @@ m = {
    "enable": "no source hooks in /repo: recorders are installed from /verif by wrapping functions at run time; ./check sets JELLY_RDF_PYJELLY_VERIF=1 and PYTHONPATH=/repo so the working tree (not the compiled copy in /venv) is imported",
    "baseline_off_cmd": "cd /repo && /venv/bin/python -m pytest -ra -q -p no:cacheprovider --timeout=900 --continue-on-collection-errors; rc=$?; git -C /repo checkout -- tests/integration_tests/test_examples/temp; exit $rc",
    "source_commits": [],
+   "fix_commits": ["caaa11c"],
    "add_only": True,
  },
  "engines": [
